@@ -164,6 +164,40 @@ macro_rules! reductions {
 
 include!(env!("GLAMSIM_INT"));
 
+macro_rules! bitop {
+    ($v:ident, $T:ident, $E:ty, $N:expr, $tr:ident, $sym:tt) => {
+        $v.push(IntOp { name: format!("<{} as {}>", stringify!($T), stringify!($tr)), ty: TyId::$T, rhs_n: $N, lhs_scalar: false,
+            rhs_elem: <$E as Scalar>::KIND, is_shift: false, fold: None,
+            vec: |a, b| bits(&(mk::<$T>(a) $sym mk::<$T>(b))),
+            prim: |a, b| (<$E>::from_bits64(a) $sym <$E>::from_bits64(b)).to_bits64() });
+        $v.push(IntOp { name: format!("<{} as {}<{}>>", stringify!($T), stringify!($tr), stringify!($E)), ty: TyId::$T, rhs_n: 1, lhs_scalar: false,
+            rhs_elem: <$E as Scalar>::KIND, is_shift: false, fold: None,
+            vec: |a, b| bits(&(mk::<$T>(a) $sym <$E>::from_bits64(b[0]))),
+            prim: |a, b| (<$E>::from_bits64(a) $sym <$E>::from_bits64(b)).to_bits64() });
+    };
+}
+/// Sum / Product over a caller-supplied iterator: documented as a fold from ZERO / ONE with `+` / `*`
+macro_rules! iter_fold {
+    ($v:ident, $T:ident, $E:ty, $N:expr) => {
+        $v.push(IntOp { name: format!("<{} as Sum>::sum over [a, b]", stringify!($T)), ty: TyId::$T, rhs_n: $N, lhs_scalar: false,
+            rhs_elem: <$E as Scalar>::KIND, is_shift: false,
+            fold: Some(|a, b| (0..a.len()).map(|i| { let z: $E = 0; ((z + <$E>::from_bits64(a[i])) + <$E>::from_bits64(b[i])).to_bits64() }).collect()),
+            vec: |a, b| bits(&[mk::<$T>(a), mk::<$T>(b)].into_iter().sum::<$T>()), prim: |a, _| a });
+        $v.push(IntOp { name: format!("<{} as Sum<&{}>>::sum over [a, b]", stringify!($T), stringify!($T)), ty: TyId::$T, rhs_n: $N, lhs_scalar: false,
+            rhs_elem: <$E as Scalar>::KIND, is_shift: false,
+            fold: Some(|a, b| (0..a.len()).map(|i| { let z: $E = 0; ((z + <$E>::from_bits64(a[i])) + <$E>::from_bits64(b[i])).to_bits64() }).collect()),
+            vec: |a, b| bits(&[mk::<$T>(a), mk::<$T>(b)].iter().sum::<$T>()), prim: |a, _| a });
+        $v.push(IntOp { name: format!("<{} as Product>::product over [a, b]", stringify!($T)), ty: TyId::$T, rhs_n: $N, lhs_scalar: false,
+            rhs_elem: <$E as Scalar>::KIND, is_shift: false,
+            fold: Some(|a, b| (0..a.len()).map(|i| { let o: $E = 1; ((o * <$E>::from_bits64(a[i])) * <$E>::from_bits64(b[i])).to_bits64() }).collect()),
+            vec: |a, b| bits(&[mk::<$T>(a), mk::<$T>(b)].into_iter().product::<$T>()), prim: |a, _| a });
+        $v.push(IntOp { name: format!("<{} as Sum>::sum over []", stringify!($T)), ty: TyId::$T, rhs_n: 0, lhs_scalar: false,
+            rhs_elem: <$E as Scalar>::KIND, is_shift: false,
+            fold: Some(|a, _| vec![0u64; a.len()]),
+            vec: |_, _| bits(&core::iter::empty::<$T>().sum::<$T>()), prim: |a, _| a });
+    };
+}
+
 macro_rules! int_type {
     ($v:ident, $T:ident, $E:ty, $N:expr, signed=$s:tt) => {
         binop!($v, $T, $E, $N, Add, add, add_assign_shim, +);
@@ -175,6 +209,15 @@ macro_rules! int_type {
         lane_method!($v, $T, $E, $N, wrapping_add, wrapping_sub, wrapping_mul, wrapping_div, saturating_add, saturating_sub, saturating_mul, saturating_div);
         checked_method!($v, $T, $E, $N, checked_add, checked_sub, checked_mul, checked_div);
         reductions!($v, $T, $E, $N);
+        bitop!($v, $T, $E, $N, BitAnd, &);
+        bitop!($v, $T, $E, $N, BitOr, |);
+        bitop!($v, $T, $E, $N, BitXor, ^);
+        $v.push(IntOp { name: format!("<{} as Not>::not", stringify!($T)), ty: TyId::$T, rhs_n: 0, lhs_scalar: false,
+            rhs_elem: <$E as Scalar>::KIND, is_shift: false, fold: None,
+            vec: |a, _| bits(&(!mk::<$T>(a))),
+            prim: |a, _| (!<$E>::from_bits64(a)).to_bits64() });
+        lane_method!($v, $T, $E, $N, min, max);
+        iter_fold!($v, $T, $E, $N);
         int_type!(@signed $v, $T, $E, $N, $s);
     };
     (@signed $v:ident, $T:ident, $E:ty, $N:expr, y) => {
